@@ -46,6 +46,10 @@ def make_project(rng, i):
     files["src/bait_b%d.py" % i] = (
         "import re as pat\n\n\ndef scan_b(lines, rx, lg):\n    out = []\n    for line in lines:\n        if rx.match(line):\n            out.append(line)\n        lg.write(line)\n"
         "    return out\n\n\ndef by_alias_b(lines):\n    return [line for line in lines if pat.match(\"y\", line)]\n")
+    # files no parser accepts: whatever a linter says about them (a syntax-error notice under its own rule id, nothing) it must say the same
+    # through the command, the file list, the directory run and the library
+    files["src/broken%d.py" % i] = "def broken_%d(a:\n    print(a)\n    return a * %d\n" % (i, rng.randint(1001, 9999))
+    files["lib/broken%d.ts" % i] = "export function broken%d(a: number {\n  console.log(a);\n  return a * %d;\n" % (i, rng.randint(1001, 9999))
     files[".thailint.yaml"] = ("magic-numbers:\n  allowed_numbers: [0, 1]\n  max_small_integer: 3\n  typescript:\n    allowed_numbers: [0, 1, 2, 37, 4217, 7331]\n  rust:\n    max_small_integer: 20\n"
                                "nesting:\n  max_nesting_depth: 3\n  python:\n    max_nesting_depth: 5\n  rust:\n    max_nesting_depth: 2\n"
                                "srp:\n  max_methods: 2\n  typescript:\n    max_methods: 9\n    max_loc: 500\n") + "dry:\n  enabled: true\n  min_duplicate_lines: 3\nfile-placement:\n  global_deny:\n    - pattern: \".*third.*\\\\.py$\"\n      reason: \"no third\"\n"
@@ -164,7 +168,7 @@ def run(ctx):
             lists.append(["src/bait_a%d.py" % i, "src/bait_b%d.py" % i])
             lists.append(["src/bait_b%d.py" % i, "src/bait_a%d.py" % i])
             lists.append(["tools", "lib"] if any(f.startswith("tools/") for f in srcs) else ["lib", "src/inner"])
-            lib_targets = [".", "src", rng.choice(srcs), rng.choice([f for f in srcs if "other" in f])]
+            lib_targets = [".", "src", rng.choice(srcs), rng.choice([f for f in srcs if "other" in f]), "src/broken%d.py" % i]
             dirs = [".", "src", "lib"]
             dir_opts = [[d, o] for d in dirs + ["tools"] for o in OPT_SETS]
             if ctx.quick:
